@@ -170,10 +170,11 @@ theorem task_events_bracketed (env : Env) (fuel : Nat) (states : Json) (name fn 
     (hr : rpcFunction ((fldStr state "Resource").getD []) = some fn)
     (hi : applyPath data ctx (pathArg state "InputPath") = .ok input)
     (hp : tmplOpt env input ctx (fld state "Parameters") = .ok params)
+    (own : Option Rat) (hown : taskOwnDeadline state data ctx st.clock = .ok own)
     (ha : taskArrival (env.delay fn params (bump st.counts (fn, params)).1)
-        ((taskLimit (taskDeadline state st.clock) env.deadline st.clock).map (·.t)) st.clock
+        ((taskLimit own env.deadline st.clock).map (·.t)) st.clock
       = some (tEnd, timedOut))
-    (hT : timedOut = true → ∃ l, taskLimit (taskDeadline state st.clock) env.deadline st.clock = some l ∧ l.task = true) :
+    (hT : timedOut = true → ∃ l, taskLimit own env.deadline st.clock = some l ∧ l.task = true) :
     (∃ later, (runState env (fuel + 1) states name state data ctx retries st).2.log =
       later ++ taskEv env.maxData (env.task fn params (bump st.counts (fn, params)).1) timedOut ::
         .lambdaScheduled params ((fldStr state "Resource").getD []) :: st.log) ∧
@@ -186,11 +187,11 @@ theorem task_events_bracketed (env : Env) (fuel : Nat) (states : Json) (name fn 
   have G := growsAll env fuel
   refine ⟨?_, (taskEv_plain _ _ _).2.2⟩
   have hbt : (timedOut && !(timedOut && (Option.map (·.task)
-      (taskLimit (taskDeadline state st.clock) env.deadline st.clock)).getD true)) = false := by
+      (taskLimit own env.deadline st.clock)).getD true)) = false := by
     cases timedOut with
     | false => rfl
     | true => obtain ⟨l, hl, ht⟩ := hT rfl; simp [hl, ht]
-  simp only [runState, h, h1, h2, h3, h4, h5, hr, hi, hp, St.closeKeep_counts, St.closeKeep_clock, ha, if_false, if_true,
+  simp only [runState, h, h1, h2, h3, h4, h5, hr, hi, hp, St.closeKeep_counts, St.closeKeep_clock, hown, ha, if_false, if_true,
     hbt, Bool.false_eq_true]
   generalize hst : (st.closeKeep.request timedOut).taskCall (bump st.counts (fn, params)).2 ((fldStr state "Resource").getD []) params
     (taskEv env.maxData (env.task fn params (bump st.counts (fn, params)).1) timedOut) tEnd = st1
